@@ -9,12 +9,12 @@ BOUNDS = ('KDTree<Vector2<int64_t>,int>: P inserts of symbolic points from the 3
           'identical (point,value) entries and shared coordinates included), then E erase(point,value) calls with symbolic arguments '
           '(hit or miss), then (a) at/exists for a symbolic probe point, (b) exists(lo,hi)/within(lo,hi) for a symbolic half-open box with '
           'corners in {0..3}^2, (c) iteration begin()..end(); each followed by the destructor. Quick: (P,E) in {(0,0),(1,0),(1,1),(2,1)} '
-          'for all three, (3,0) for lookup and iteration, (3,1) for lookup; thorough: (2,2),(3,0),(3,1),(3,2),(4,0) for all three and (4,1) for lookup and iteration. '
+          'for all three, (3,0) for lookup and iteration, (3,1) for lookup; thorough: (2,2),(3,0),(3,1),(4,0) for all three and (3,2),(4,1) for lookup and iteration. '
           'Erase while iterating (erase_advance under a symbolic predicate over the entries, then size/iteration/exists): P <= 2 quick, P <= 3 thorough. '
           'Thorough also: KDTree<Vector3<int64_t>,int> on the 2x2x2 grid, (P,E) in {(3,1),(4,1)}, erase results/size/at/exists.')
 STUBS = ['std::deque -> engine/shim/deque (fixed-capacity FIFO of 5 slots, never reuses popped slots; overflow is an assertion failure, not reached for P <= 4)']
 OUTSIDE = ['more than 4 points; grids larger than 3x3 (ties along both axes, duplicates and identical entries are present in the 3x3 grid)',
-           'P=4 with 2 erases (lookup 11 min, iteration 10.5 min, box queries out of memory at 12 GB); box queries at P=4 with 1 erase and erase_advance at P=4: solver out of memory at 12 GB',
+           'P=4 with 2 erases (lookup 11 min and iteration 10.5 min: hold, run once, not in the tier; box queries out of memory at 12 GB); box queries at P=4 with 1 erase and erase_advance at P=4: solver out of memory at 12 GB; box queries at P=3,E=2 hold (8 min, 9+ GB, run twice) but do not fit the 30-minute / 14 GB tier',
            '3-D trees beyond insert/erase/exact lookup on the 2x2x2 grid (P <= 4, E = 1); value types other than int; emplace() (does not compile: std::forward(args) without template argument)',
            'depth(), at() value choice among duplicates of the same point (any stored value is accepted)',
            "libstdc++'s std::deque itself"]
@@ -29,14 +29,14 @@ def _cells(tier, what):
         quick.append((3, 1))
     if tier == 'quick':
         return quick
-    extra = [(2, 2), (3, 0), (3, 1), (3, 2), (4, 0)]
+    extra = [(2, 2), (3, 0), (3, 1), (4, 0)]
     if what in ('lookup', 'iter'):
-        extra.append((4, 1))
+        extra += [(3, 2), (4, 1)]
     return quick + [c for c in extra if c not in quick]
 
 
 _MEM = {  # address-space cap per query (GB): measured peak RSS (box_p3_e2 9.1+, erase_iter_p3 7.3+, lookup/iter_p4_e1 4.4) plus headroom;
-    # cells not listed stay below 3 GB
+    # box_p3_e1 7.2, box_p2_e2 5.6, box_p4_e0 5.4, lookup_p3_e2 4.6; cells not listed stay below 3 GB
     'box_p3_e2': 12, 'erase_iter_p3': 10, 'box_p3_e1': 8, 'box_p4_e0': 8, 'box_p2_e2': 8, 'lookup_p3_e2': 8, 'iter_p3_e2': 8,
     'lookup_p4_e1': 6, 'iter_p4_e1': 6, 'lookup_p3_e1': 6, 'iter_p3_e1': 6, 'box_p2_e1': 6, 'box_p3_e0': 6, 'erase_iter_p2': 6,
     'lookup_p2_e2': 5, 'iter_p2_e2': 5, 'lookup_p2_e1': 4, 'iter_p2_e1': 4, 'lookup_p4_e0': 4, 'iter_p4_e0': 4,
